@@ -5,7 +5,12 @@ package ice
 // symbolic engine intercepts every function in this file by name and never
 // executes these bodies.
 
-import "fmt"
+import (
+	"fmt"
+	"time"
+)
+
+func verifAfter() <-chan time.Time { return time.After(150 * time.Millisecond) }
 
 var (
 	verifVec      []uint64
@@ -140,3 +145,21 @@ func verifRunGoroutines() {}
 func verifB2U(b bool) uint64 {
 	return verifIteU64(b, 1, 0)
 }
+
+// verifTimerTicks(k): under the engine the next k receives from a time.Timer
+// channel are ready; natively real timers run.
+func verifTimerTicks(k int) {}
+
+// verifRunUntilBlocked runs f until it blocks (engine) / in a goroutine for a
+// short while (native).
+func verifRunUntilBlocked(f func()) {
+	done := make(chan struct{})
+	go func() { defer close(done); f() }()
+	select {
+	case <-done:
+	case <-verifAfter():
+	}
+}
+
+// verifFireAfterFuncs fires pending time.AfterFunc callbacks (engine only).
+func verifFireAfterFuncs() int { return 0 }
